@@ -77,6 +77,9 @@ type Mismatch struct {
 	Want    string `json:"want"`
 	Got     string `json:"got"`
 	History string `json:"history,omitempty"`
+	// GJSON is the abstract grammar of the failing case (for replay)
+	GJSON   string `json:"g_json,omitempty"`
+	RawIn   string `json:"input_hex,omitempty"`
 }
 
 type Counter struct {
